@@ -390,15 +390,15 @@ type result struct {
 	Cyclic  bool
 	// maxima over the run (after non-faulting instructions)
 	MaxWalk, MaxRefs, MaxInvoc, MaxTry int
-	Over                                int // max(refs-walk)
-	Marked                              bool
-	Notes                               int // API-consistency observations that the property does not demand (counted, not asserted)
+	Over                               int // max(refs-walk)
+	Marked                             bool
+	Notes                              int // API-consistency observations that the property does not demand (counted, not asserted)
 }
 
 type execOpts struct {
-	bounds []bool                        // instruction boundaries (len(script)+1 entries) if the script passed the static check
-	mark   int                           // offset; -1: none
-	onMark func(v *vm.VM, w *walker)      // called (once) before the instruction at mark executes
+	bounds []bool                    // instruction boundaries (len(script)+1 entries) if the script passed the static check
+	mark   int                       // offset; -1: none
+	onMark func(v *vm.VM, w *walker) // called (once) before the instruction at mark executes
 	w      *walker
 }
 
